@@ -69,6 +69,7 @@ class Ctx:
         self.call_sites = 0
         self.notes = []
         self.min_counts = {}    # rule -> (found, minimum)
+        self.shortfalls = []
         self.extra = {}
         self.t0 = time.time()
 
@@ -98,8 +99,10 @@ class Ctx:
         """Frozen minimum instance count of a rule: fewer is an ANALYSIS-ERROR."""
         self.min_counts[rule] = (found, minimum)
         if found < minimum:
-            raise AnalysisError("%s: rule matched %d instance(s), frozen minimum is %d "
-                                "(an anchor vanished or is no longer recognised)" % (rule, found, minimum))
+            # deferred: if the run also found violations they are reported (exit 1); otherwise the shortfall
+            # fails the run as analysis-broken (exit 2) - never a silent pass
+            self.shortfalls.append("%s: rule matched %d instance(s), frozen minimum is %d "
+                                   "(an anchor vanished or is no longer recognised)" % (rule, found, minimum))
 
     def note(self, text):
         self.notes.append(text)
@@ -181,6 +184,12 @@ def finish(ctx, explanation, assumptions, level="other", technique=""):
     (ev_dir / ("%s.json" % ctx.prop)).write_text(json.dumps(ev, indent=1, default=str))
     print("%s tier=%s: %d obligations over %d functions, %d discharged, %d known finding(s), %d violation(s)"
           % (ctx.prop, ctx.tier, n_ob, len(ctx.functions), n_ok, len(seen_known), len(new)))
+    if ctx.shortfalls and not new:
+        for sf in ctx.shortfalls:
+            print("ANALYSIS-ERROR property=%s %s" % (ctx.prop, sf))
+        return 2
+    for sf in ctx.shortfalls:
+        print("  note: %s" % sf)
     if new:
         replay = ev_dir / ("%s.violation.json" % ctx.prop)
         replay.write_text(json.dumps(dict(property=ctx.prop, findings=[f.as_dict() for f in new]), indent=1, default=str))
